@@ -142,7 +142,7 @@ func init() {
 	register("c03", func(args []string) int {
 		f := parseFlags("c03", args)
 		rep := newReport("C03", f)
-		rep.Rule = "K1: random scripts on the page write buffer of a fresh / an existing page (full, partial and oversize SetBytes, Load, in-place modification + MarkDirty, Bytes, Flush, Free) through the public API vs. the Coq model (result kind and bytes after every step); stall scenarios (13-52 pages flushed, rolled back, re-allocated and rewritten while the writer goroutine is slowed down: both writes to a page land in one batch of more than 12 entries); random transaction histories (alloc / full+partial SetBytes / Load+MarkDirty / read / free / Flush / page Flush / CheckpointWAL / SetRoot / commit / rollback / close / reopen / concurrent readers) on 8 file configurations; every read inside and outside transactions is compared with a sequential map model; non-trivial = history with at least one committed write; distinct by (config, op-kind multiset)"
+		rep.Rule = "K1: random scripts on the page write buffer of a fresh / an existing page (full, partial and oversize SetBytes, Load, in-place modification + MarkDirty, Bytes, Flush, Free) through the public API vs. the Coq model (result kind and bytes after every step); stall scenarios (13-52 pages flushed, rolled back, re-allocated and rewritten while the writer goroutine is slowed down: both writes to a page land in one batch of more than 12 entries; and: manual checkpoint, then the same transaction overwrites the checkpointed pages again - two queued writes per page id without any rollback); random transaction histories (alloc / full+partial SetBytes / Load+MarkDirty / read / free / Flush / page Flush / CheckpointWAL / SetRoot / commit / rollback / close / reopen / concurrent readers) on 8 file configurations; every read inside and outside transactions is compared with a sequential map model; non-trivial = history with at least one committed write; distinct by (config, op-kind multiset)"
 		if f.replay != "" {
 			rp, err := loadHistReplay(f.replay)
 			if err != nil {
@@ -170,6 +170,7 @@ func init() {
 		rep.ModelCalls = m.N
 		for i := 0; i < n/10+3; i++ {
 			stallScenario(rep, r)
+			stallScenario2(rep, r)
 		}
 		for i := 0; i < n; i++ {
 			hseed := r.Int63()
